@@ -1629,7 +1629,7 @@ class Gen:
         r = self.r
         t = r.choice([U256, U256, ("int", 128, False), ("int", 64, False), ("int", 256, True), ("int", 128, True), ("int", 8, False)])
         if slot is not None and slot % 2 == 0:
-            t = r.choice([U256, ("int", 128, False), ("int", 64, False), ("int", 8, False)])
+            t = U256
         lo, hi = int_bounds(t)
         a0 = E("var", t, name="a0", id=0)
         a1 = E("var", t, name="a1", id=1)
@@ -1638,7 +1638,7 @@ class Gen:
             return min(r.choice([2, 3, 10, 50, 100, 128, 255, 256, 1000]), hi)
 
         def narrow(x, L):
-            k = r.choice(["mod", "mod", "and", "min", "none"] if slot is None else ["mod", "mod", "and", "min"])
+            k = r.choice(["mod", "mod", "and", "min", "none"]) if slot is None else ["mod", "and", "min"][(slot // 2) % 3]
             if k == "mod":
                 return E("bin", t, op="Mod", a=x, b=E("const", t, v=L))
             if k == "and" and lo == 0:
@@ -1680,6 +1680,7 @@ class Gen:
             calls.append([a % W, b % W])
         calls.append([(L1 - 1 if L1 - 1 <= hi else 0) % W, (L2 - 1) % W])      # narrowed a < narrowed b when L1 < L2
         calls.append([1 % W, (L2 - 1) % W])
+        calls.append([0, (L2 - 1) % W])
         f.probe_calls = calls
         return f
 
